@@ -47,7 +47,7 @@ def is_max_of(c, r, parts, name, props):
 
 class NonlinearViolation(Unit):
     name = "violation.nonlinear"
-    props = ("C06", "C02", "C17", "C01")
+    props = ("C06", "C02", "C17", "C01", "C03")
     fmodel = "ORDER"
     functions = [("cobyqa.problem", "NonlinearConstraints.violation"), ("cobyqa.problem", "NonlinearConstraints.maxcv")]
 
@@ -89,20 +89,20 @@ class NonlinearViolation(Unit):
         pcub = cub.map(lambda e: np_max2(e, 0.0))
         pceq = ceq.map(lambda e: abs(e))
         if use_maxcv:
-            is_max_of(c, res, [pcub, pceq], "C02.nonlinear_maxcv", ["C02", "C17"])
+            is_max_of(c, res, [pcub, pceq], "C02.nonlinear_maxcv", ["C02", "C17", "C03"])
             return
         if not isinstance(res, vecs.Concat) or len(res.parts) != 2:
             c.oblige("C02.nonlinear_violation.structure", z3.BoolVal(False), props=["C02", "C17"], note="expected concatenate((max(c_ub,0), |c_eq|))")
             return
         for nm, got, exp in (("ub", res.parts[0], pcub), ("eq", res.parts[1], pceq)):
             i = z3.Int(c.fresh_name("vcx_any"))
-            c.oblige(f"C02.nonlinear_violation.{nm}_length", z3.And(got.n == exp.n, z3.BoolVal(got.dense())), props=["C02", "C17"])
-            c.oblige(f"C02.nonlinear_violation.{nm}_elements", z3.Implies(z3.And(0 <= i, i < exp.n), feq(got.at(i), exp.at(i))), props=["C02", "C17"])
+            c.oblige(f"C02.nonlinear_violation.{nm}_length", z3.And(got.n == exp.n, z3.BoolVal(got.dense())), props=["C02", "C17", "C03"])
+            c.oblige(f"C02.nonlinear_violation.{nm}_elements", z3.Implies(z3.And(0 <= i, i < exp.n), feq(got.at(i), exp.at(i))), props=["C02", "C17", "C03"])
 
 
 class ProblemViolation(Unit):
     name = "violation.problem"
-    props = ("C06", "C02", "C01")
+    props = ("C06", "C02", "C01", "C03")
     fmodel = "ORDER"
     functions = [("cobyqa.problem", "Problem.violation"), ("cobyqa.problem", "Problem.maxcv")]
 
@@ -177,11 +177,11 @@ class ProblemViolation(Unit):
         for k, v in enumerate(lin + nlp):
             i = z3.Int(c.fresh_name("vcx_any"))
             e = v.at(i)
-            c.oblige(f"C02.problem_maxcv.upper_bound[{k}]", z3.Implies(z3.And(v.indom(i), z3.Not(r.nan)), z3.And(z3.Not(e.nan), r.r >= e.r)), props=["C02"])
+            c.oblige(f"C02.problem_maxcv.upper_bound[{k}]", z3.Implies(z3.And(v.indom(i), z3.Not(r.nan)), z3.And(z3.Not(e.nan), r.r >= e.r)), props=["C02", "C03"])
         i = z3.Int(c.fresh_name("vcx_any"))
         e = bviol.at(i)
         c.oblige("C02.problem_maxcv.upper_bound[bounds]",
-                 z3.Implies(z3.And(z3.Not(feas.t), bviol.indom(i), z3.Not(r.nan)), z3.And(z3.Not(e.nan), r.r >= e.r)), props=["C02"])
+                 z3.Implies(z3.And(z3.Not(feas.t), bviol.indom(i), z3.Not(r.nan)), z3.And(z3.Not(e.nan), r.r >= e.r)), props=["C02", "C03"])
         c.oblige("C02.problem_maxcv.nonneg_or_nan", z3.Or(r.nan, r.r >= 0), props=["C02", "C03"])
         att = [r.r == 0]
         nanw = []
@@ -192,8 +192,8 @@ class ProblemViolation(Unit):
         for w in c.witnesses:
             att.append(z3.And(z3.Not(feas.t), bviol.indom(w), z3.Not(bviol.at(w).nan), bviol.at(w).r == r.r))
             nanw.append(z3.And(z3.Not(feas.t), bviol.indom(w), bviol.at(w).nan))
-        c.oblige("C02.problem_maxcv.attained", z3.Implies(z3.Not(r.nan), z3.Or(*att)), props=["C02"])
-        c.oblige("C02.problem_maxcv.nan_only_from_nan_value", z3.Implies(r.nan, z3.Or(*nanw) if nanw else z3.BoolVal(False)), props=["C02"])
+        c.oblige("C02.problem_maxcv.attained", z3.Implies(z3.Not(r.nan), z3.Or(*att)), props=["C02", "C03"])
+        c.oblige("C02.problem_maxcv.nan_only_from_nan_value", z3.Implies(r.nan, z3.Or(*nanw) if nanw else z3.BoolVal(False)), props=["C02", "C03"])
 
 
 UNITS = [NonlinearViolation(), ProblemViolation()]
